@@ -539,6 +539,21 @@ class Builder:
             return [ExprStmt(Call('writeln', [e], t=EMPTY))]
         return [ExprStmt(Call('write', [e], t=EMPTY)), ExprStmt(Call('write', [Lit('char', 32, None, t=BYTE)], t=EMPTY))]
 
+    def deep_probe(self):
+        """A statement whose evaluation needs a deep frame (right-nested operands whose left sides must be kept),
+        printed through write(byte) so that no library routine's own reservation hides it."""
+        n = self.integer(3, 6)
+        arrs = self.vars_of(lambda v: is_arr(v.ty) and v.ty[1] == INT and v.static_len)
+        if arrs:
+            v = self.pick(arrs)
+            inner = Index(Var(v.name, t=v.ty), Lit('int', self.integer(0, v.static_len - 1), None, t=INT), t=INT)
+        else:
+            inner = Len(Lit('string', b'abc', None, t=STRING), t=INT)
+        e = inner
+        for _ in range(n):
+            e = Bin(self.pick(['+', '-', '*']), self.num_expr(0), Paren(e, t=INT), t=INT)
+        return [ExprStmt(Call('write', [Is(e, BYTE, t=BYTE)], t=EMPTY))]
+
     def scalar_types(self):
         tys = [(50, INT)]
         if 'bytes' in self.F:
@@ -626,7 +641,8 @@ class Builder:
                     length = Len(Var(v.name, t=v.ty), t=INT)
                     n = v.static_len
         ty = arr(el, False)
-        out = [ArrDecl(el, name, length)]
+        out = self.deep_probe() if self.chance(self.size.get('deep_before_vla_pct', 15)) else []
+        out.append(ArrDecl(el, name, length))
         k = self.fresh('k')
         kv = Var(k, t=INT)
         self.scopes.append([VarInfo(k, INT, frozen=True)])
@@ -984,7 +1000,7 @@ class Builder:
         if name is None:
             name = flavor + self.fresh('f')
         if params is None:
-            params = self.gen_params(self.integer(0, 3))
+            params = self.gen_params(self.integer(0, self.size.get('max_params', 3)))
         info = FuncInfo(name, flavor, ret, params, recursive)
         old = (self.flavor, self.cur_ret, self.cur_func, self.scopes, self.loop_depth, self.in_try, self.preempts)
         self.flavor = flavor
